@@ -43,16 +43,17 @@ def build():
     tattrs, tattrs_e = map_field(Q('Req'), 'attrs', 23, 'string', 'string')
     msgs = [
         message('Inner', [field('x', 1, 'double'), field('label', 2, 'string')]),
-        message('Mid', [field('deep', 1, 'string'), field('other', 2, 'int32')]),
+        message('Mid', [field('deep', 1, 'string', required=True), field('other', 2, 'int32')]),
         message('Inner2', [field('leaf', 1, 'string'), field('mid', 2, Q('Mid')), field('tags', 3, 'string', repeated=True), iattrs,
                            field('parts', 5, Q('Inner'), repeated=True)], nested=[iattrs_e]),
         message('Outer', [field('mid', 1, Q('Mid')), field('tag', 2, 'string')]),
         message('Req', [
-            field('f_string', 1, 'string'), field('f_int', 2, 'int64'), field('f_bool', 3, 'bool'),
+            # some of the flattened fields are REQUIRED: the parameter order is the declared one all the same
+            field('f_string', 1, 'string'), field('f_int', 2, 'int64', required=True), field('f_bool', 3, 'bool'),
             field('f_bytes', 4, 'bytes'), field('f_double', 5, 'double'), field('f_enum', 6, 'enum:' + Q('Color')),
-            field('f_msg', 7, Q('Inner')), field('f_opt', 8, 'int32', optional=True),
+            field('f_msg', 7, Q('Inner'), required=True), field('f_opt', 8, 'int32', optional=True),
             field('pick_a', 9, 'string', oneof=0), field('pick_b', 10, 'int64', oneof=0),
-            field('r_str', 11, 'string', repeated=True), field('r_msg', 12, Q('Inner'), repeated=True),
+            field('r_str', 11, 'string', repeated=True, required=True), field('r_msg', 12, Q('Inner'), repeated=True),
             field('r_val', 13, '.google.protobuf.Value', repeated=True), mss, msm,
             field('inner', 16, Q('Inner2')), field('class', 17, 'string'), field('flatten', 18, 'string'),
             field('outer', 19, Q('Outer')), field('untouched', 20, 'string'),
